@@ -294,6 +294,25 @@ theorem changing_store_history_terminates (ls : List LoadW) (s : St)
   obtain ⟨l, hm, heq⟩ := List.mem_map.1 hmem
   exact hno l hm heq
 
+/-- (2)+(4) carried over to histories: when the i-th load of a history over changing stores — whatever happened before
+    on that Loader, whatever the files were before — returns a document in a clean run (no foreign evaluation, no text
+    clash, no degenerate target), every reference of the graph loaded from the i-th store HAS a value and that value
+    is the object its text designates in the i-th store -/
+theorem history_load_ok_resolves_all_partial (ls : List LoadW) (s0 : St) (i : Nat) (l : LoadW) (s : St)
+    (hres : ∀ x ∈ ls, x.e.resets = true) (hnf : ∀ x ∈ ls, loadEntry x.w x.fuel x.e {} ≠ .outOfFuel)
+    (hl : ls[i]? = some l) (hloc : l.e.located = true) (hr : (loadSeqW ls s0)[i]? = some (.ok s))
+    (hC : CopyOK l.w) (hf : s.foreign = false) (ht : s.tclash = false) (hc : Clean s) :
+    ∀ o n t, Reach l.w s l.e.root o → l.w.node o = some n → n.ref = some t → n.orig = none →
+      ∃ v f, s.get o = some v ∧ designates l.w f o = some v := by
+  rw [changing_store_history_is_fresh_loads ls s0 hres hnf, List.getElem?_map, hl] at hr
+  simp only [Option.map_some, Option.some.injEq] at hr
+  have hmem : l ∈ ls := List.mem_of_getElem? hl
+  have he : l.e = ⟨l.e.root, true, true⟩ := by
+    have h1 := hres l hmem
+    cases hE : l.e; simp_all
+  rw [he, entry_fresh_is_load] at hr
+  exact load_ok_resolves_all_partial l.w hC l.fuel l.e.root s hr hf ht hc
+
 /-! ### (T) the ten resolvers have the skeleton and the child calls the model assumes
 
 `Gen.resolverSkeleton` is regenerated from openapi3/loader.go on every run. -/
@@ -489,6 +508,16 @@ theorem w50_changing_store_history :
     ((loadSeqW [⟨w50, 20, ⟨0, true, true⟩⟩, ⟨w50fixed, 20, ⟨0, true, true⟩⟩] {}).map
         (fun r => match r with | .ok s => (1, s.get 3) | .err _ _ => (2, none) | .outOfFuel => (3, none))) = [(2, none), (1, some 2)]
     ∧ designates w50fixed 5 3 = some 2 := by decide
+
+/-- non-vacuity of `history_load_ok_resolves_all_partial`: position 1 of that history returns a document in a clean run
+    (flags down, counters zero) over a world with well-formed copies -/
+example : (match ((loadSeqW [⟨w50, 20, ⟨0, true, true⟩⟩, ⟨w50fixed, 20, ⟨0, true, true⟩⟩] {})[1]? : Option Res) with
+    | some (Res.ok s) => (!s.foreign) && (!s.tclash) && (s.nnil + s.nempty == 0) && s.get 0 == some 1
+    | _ => false) = true := by decide
+
+example : CopyOK w50fixed := by
+  intro c n r hn ho
+  rcases c with _ | _ | _ | _ | _ | c <;> simp [World.node, w50fixed, w50] at hn <;> subst hn <;> simp at ho
 
 /-- #13 / F-C02-13 (fixed cbb0d05). Object 0: a response value whose child 1 (a header under content.encoding,
     formerly never visited) refers to the header 2. -/
